@@ -72,7 +72,7 @@ def _case(draw):
     else:
         d["ode_mod_terms"] = []
     d["ode_split"] = draw(st.sampled_from(["one-option", "one-per-term"]))
-    d["spacing"] = {k: draw(st.sampled_from(["", " "])) for k in ("list", "table", "kv")}
+    d["spacing"] = {k: draw(st.sampled_from(["", " "])) for k in ("list", "table", "kv", "terms")}
     return d
 
 
@@ -268,7 +268,8 @@ def option_string(d):
     terms = [f"{t}:{f},[{' '.join(deps)}]" for t, f, deps in d["ode_mod_terms"]]
     if terms:
         if d["ode_split"] == "one-option":
-            opts.append("--ode-modifier='" + ";".join(terms) + "'")
+            opts.append("--ode-modifier='" + (";" + sp.get("terms", "")).join(terms) + "'")  # a blank may follow the ';' as it may follow ','
+
         else:
             opts += [f"--ode-modifier='{t}'" for t in terms]
     opts += [f"--solver={s}", f"--device={dv}", f"--method={m}", "--render", "--render-force"]
